@@ -110,7 +110,16 @@ def check(run, ctx):
         prod = {i_: ast.unparse(e) for i_, e in enumerate(elt.elts)}
     elif isinstance(elt, ast.Call) and not elt.args and elt.keywords and all(k.arg for k in elt.keywords):
         prod = {k.arg: ast.unparse(k.value) for k in elt.keywords}
-    run.require(prod is not None and isinstance(tgt, ast.Name) and len(prod) == 3, "_execute_parallel_linting: work items are neither 3-tuples nor 3-field records built by one comprehension over file_paths - P5 cannot decide the new shape")
+    if prod is not None and isinstance(elt, ast.Call) and isinstance(elt.func, ast.Name):
+        # a NamedTuple / dataclass record is also addressable by position: add the positional view from its field order
+        rc = next((c_ for q_, c_ in repo.classes.items() if c_.name == elt.func.id and c_.module is ex.module), None)
+        if rc is not None:
+            order = [st.target.id for st in rc.node.body if isinstance(st, ast.AnnAssign) and isinstance(st.target, ast.Name)]
+            for i_, fld in enumerate(order):
+                if fld in prod:
+                    prod[i_] = prod[fld]
+    n_slots = len([k_ for k_ in (prod or {}) if isinstance(k_, str)]) or len(prod or {})
+    run.require(prod is not None and isinstance(tgt, ast.Name) and n_slots == 3, "_execute_parallel_linting: work items are neither 3-tuples nor 3-field records built by one comprehension over file_paths - P5 cannot decide the new shape")
     # the worker side: which slot reaches lint_file(...), Orchestrator(project_root=..., config=...)
     wpar = w.node.args.args[0].arg
     unpack = next((n for n in w.node.body if isinstance(n, ast.Assign) and isinstance(n.targets[0], ast.Tuple) and isinstance(n.value, ast.Name) and n.value.id == wpar), None)
